@@ -180,7 +180,9 @@ func runParamNew(args []string) []string {
 
 // ---------------------------------------------------------------- generators
 
-var versions = []string{"8.1", "9.0", "0.0", "65535.65535", "65536.0", "8", "8.", ".1", "8.1.2", "8.1 ", " 8.1", "٨.١", "8.1\n", "-1.0", "+1.0", "00008.01", "1e1.0", "8.x", "", "7.9p1"}
+var versions = []string{"8.1", "9.0", "0.0", "65535.65535", "65536.0", "8", "8.", ".1", "8.1.2", "8.1 ", " 8.1", "٨.١", "8.1\n", "-1.0", "+1.0", "00008.01", "1e1.0", "8.x", "", "7.9p1",
+	// components with leading zeros are decimal numbers; values next to and beyond the 16-bit range; twins modulo 2^16
+	"010.1", "8.010", "0100.017", "09.08", "00.0", "007.7", "0.00", "65535.0", "0.65535", "65536.1", "1.65536", "65537.65537", "70000.1", "131080.1", "4294967304.1", "18446744073709551624.1", "0x10.1", "1_0.1", "1.0_1"}
 
 func genExts(g *hx.Gen, depth int) string {
 	// a canonical (sorted, duplicate-free) token tree object with integer numbers only
@@ -427,6 +429,24 @@ func genParam(g *hx.Gen, out *hx.Out) {
 		{"/usr/bin/gensign", "NONS", "regular"}, {"gensign", "NONS"}, {}, {"a"}, {"gensign", "-c", "/usr/bin/gensign NONS regular extra more"},
 		{"gensign", "-c", "/usr/bin/gensign nons regular"}, {"gensign", "-c", "/usr/bin/gensign regular NONS"}, {"a b c d e f g"}, {"a b c NSOK e f"},
 		{"gensign", "-c", "/usr/bin/gensign  NONS regular"}, {"NONS", "NSOK", "x"}, {"x", "NONS ", "y"}, {"", "", "NONS", ""}, {"a", "b", "c", "d", "e", "f", "g", "h"},
+		{"gensign", "-c", "/usr/bin/gensign nsok regular"}, {"gensign", "-c", "/usr/bin/gensign Nons regular"}, {"gensign", "-c", "/usr/bin/gensign NSOKx regular"}, {"gensign", "-c", "/usr/bin/gensign NSO regular"},
+		{"a", "b", "c", "d", "NSOK", "f"}, {"a", "b", "c", "d", "e", "NSOK", "g"}, {"NSOK", "h"}, {"x", "NSOK", "h"}, {"x y", "NSOK h"}, {"NSOK\tregular", "x", "y"},
+	}
+	// every declared client version, in the JSON and in the legacy form, in a fully valid environment
+	for _, v := range versions {
+		vj, _ := json.Marshal(v)
+		for _, cmd := range []string{`{"ifVer":7,"username":"u","hostname":"h","sshClientVersion":` + string(vj) + `}`, "IFVer=6 SSHClientVersion=" + v + " req=u@h"} {
+			args := []string{hx.Tok([]byte(cmd)), hx.HexS(cmd), hx.HexS("alice"), hx.HexS(conns[0]), hx.StrList(argvs[0]), "1"}
+			out.Case(fmt.Sprintf("prm%d", n), "param.new", args, safe(runParamNew, args))
+			n++
+		}
+	}
+	// every argument vector, with a valid request
+	for _, argv := range argvs {
+		cmd := `{"ifVer":7,"username":"u","hostname":"h","sshClientVersion":"8.1"}`
+		args := []string{hx.Tok([]byte(cmd)), hx.HexS(cmd), hx.HexS("alice"), hx.HexS(conns[0]), hx.StrList(argv), "1"}
+		out.Case(fmt.Sprintf("prm%d", n), "param.new", args, safe(runParamNew, args))
+		n++
 	}
 	for i := 0; i < *hx.Count; i++ {
 		cmd := g.Pick(cmds)
